@@ -134,3 +134,8 @@ def runner_paths(prog, name: str):
     from ..ctx import engine
 
     return engine(prog).paths(prog.func(RUNNERS[name]), raises=runner_raises, key="runner")
+
+
+def is_loop_var(t) -> bool:
+    """the variable of a `for` loop (any name): ('fresh', <iter node>, <name>)"""
+    return isinstance(t, tuple) and len(t) == 3 and t[0] == "fresh"
